@@ -4,16 +4,17 @@ _REG = "lib/discov/internal/registry.go"
 SPEC = dict(
     level="exploration",
     technique="runtime monitor: real discov.Subscribers (and Publishers) on the real registry/cluster/stateWatcher code bound to a model etcd (own EtcdClient injected through connManager, revisioned store + event log, harness-fed unbuffered watch channels); reference model of the live key set and of exclusive ownership; oracle only at quiescence, which is observed (goroutine states of the watch loops, listener counters, gates) and never slept for; complete small family + seeded random histories + gated schedules + -race concurrent rounds",
-    level_text="Compares, at every quiescent point of a generated history, set(Subscriber.Values()) with the distinct values of the model etcd's live keys (exclusive mode: value listed iff its most recent publisher key is live, with owner sets where the announcement order inside one snapshot is unspecified), for late joiners immediately after NewSubscriber returns, plus: no repeated value, change listener ran and its last run saw the final set whenever the set changed, a Ready after a connection loss starts a reload (stateWatcher.updateState), reload returns. Quick: complete family of 2x6^4 words over {toggle 3 keys (2 share a value), deliver, reload, late-join}; 1200 random histories (20-60 ops: put/del delivered in varied batches over several watch streams or missed until a reload, reloads, attaches, broken/cancelled watch streams, progress notifications, 1-2 service keys); 600 histories driven through the real stateWatcher; 150 gated 'reload during event processing', 120 gated 'subscriber of a new key joins while the reload waits' (also 40 under -race) and 60 gated 'two streams out of step' schedules; Get failure + retry; 60 histories with real Publishers (KeepAlive/Stop/Pause/Resume/fixed id/lease loss); 2 histories on a real gRPC connection to a loopback server that is stopped and restarted (real watchConnState + stateWatcher.watch); 150 histories through the discov resolver builder (last cc.UpdateState state == live value set); 300 concurrent rounds under -race. Held = no deviation on the executions observed, not a proof.",
+    level_text="Compares, at every quiescent point of a generated history, set(Subscriber.Values()) with the distinct values of the model etcd's live keys (exclusive mode: value listed iff its most recent publisher key is live, with owner sets where the announcement order inside one snapshot is unspecified), for late joiners immediately after NewSubscriber returns, plus: no repeated value, change listener ran and its last run saw the final set whenever the set changed, a Ready after a connection loss starts a reload (stateWatcher.updateState), reload returns. Quick: complete family of 2x6^4 words over {toggle 3 keys (2 share a value), deliver, reload, late-join}; 1200 random histories (20-60 ops: put/del delivered in varied batches over several watch streams or missed until a reload, reloads, attaches, broken/cancelled watch streams, progress notifications, 1-2 service keys); 600 histories driven through the real stateWatcher; 150 gated 'reload during event processing', 120 gated 'subscriber of a new key joins while the reload waits' (also 40 under -race) and 60 gated 'two streams out of step' schedules; 400 'rekeyed' histories (a deleted key comes back with another value); Get failure + retry; 60 histories with real Publishers (KeepAlive/Stop/Pause/Resume/fixed id/lease loss); 2 histories on a real gRPC connection to a loopback server that is stopped and restarted (real watchConnState + stateWatcher.watch); 150 histories through the discov resolver builder (last cc.UpdateState state == live value set); 300 concurrent rounds under -race. Held = no deviation on the executions observed, not a proof.",
     level_note="Trusts: Go runtime and race detector, the ~300-line model etcd (Get snapshot+revision atomic, Watch replays the log from the requested revision), the exclusive-owner model, runtime.Stack goroutine states as the 'event fully processed' handshake. Not asserted (sound to omit): a key changing its value during its life (excluded by the quantifier); anything while undelivered changes exist (only after delivery or reload); which of several keys of one snapshot owns a shared value in exclusive mode (announcement order unspecified: either accepted); listener invocation counts beyond 'ran, and last run saw the final set'; a subscriber joining at an arbitrary point of a running reload (only the gated, WaitGroup-ordered window is scheduled); real gRPC connectivity transitions (the state watcher is fed a scripted etcdConn).",
     design_ref="DESIGN.md §3 C15",
     assumptions=[
-        "each key carries one value for all of its lives (publishers re-register the same value); a key never changes value",
+        "each life of a key carries one value; a live key is never overwritten with another value. In all families but Rekeyed a key keeps its value over all its lives; in Rekeyed a deleted key may be registered again with another value (delete and re-registration delivered, or both missed until a reload)",
         "the model etcd is faithful where the registry depends on it: Get returns snapshot and revision atomically, a watch created WithRev(r) is replayed every event with revision >= r in order, delete events carry the key only",
         "events are delivered in revision order per watch stream; 'missed' events are exactly those undelivered when a reload starts",
         "a watch response without events (progress notification) is legal input; an error response (Canceled, or CompactRevision set) is the last one on its channel, which is then closed, as the etcd client does",
         "exclusive mode: among keys announced by one snapshot (first load, late join, reload) any may be the owner of a shared value; after a re-subscription that replays older revisions both the view with and without the replay are accepted",
         "subscribers join while no reload is in progress, except in the gated join-during-reload family (new key, reload observed parked in its wait, NewSubscriber returned before the gate opens), whose accesses are ordered through the WaitGroup",
+        "hang verdicts (NewSubscriber / stateWatcher.updateState / reload not returning): the goroutine is parked on a mutex of the package for 20 s with nothing else running in the package; a state watcher that is never seen waiting during 20 s of a constant connection state counts as stuck",
         "reload deadlock verdict: reload goroutine parked in WaitGroup.Wait and a watch goroutine parked on the cluster mutex for 20 s with nothing else running is the witness (the property there is termination of the reload)",
     ],
     runs=[
